@@ -60,6 +60,10 @@ type VC struct {
 	declared  map[string]bool
 	ghostUsed map[string]bool
 	usedAssumptions map[string]bool // extern/trusted contracts and axioms used
+	macroMemo       map[string]string // large closed macro expansions, named once
+	declName        []string          // per declaration: the name a define-fun defines ("" otherwise)
+	declTok         [][]string        // per declaration: generated symbols it mentions
+	factTok         [][]string        // per fact: generated symbols it mentions
 	labels    map[string]int
 	notes     []string
 
@@ -485,20 +489,111 @@ func (o *Obligation) smt(timeoutMs int) string {
 		}
 	}
 	b.WriteString(gp)
-	for _, d := range vc.decls[:o.NDecl] {
-		b.WriteString(d + "\n")
-	}
-	for _, f := range vc.facts[:o.NFact] {
+	// facts first (control-flow slicing), then only the definitions they and the goal
+	// mention, transitively: a define-fun nobody refers to is dead text, and in long
+	// functions the definitions made for other program points dominated the query
+	var factLines []string
+	needed := map[string]bool{}
+	vc.indexTokens()
+	for i, f := range vc.facts[:o.NFact] {
 		if !vc.relevant(f, o) {
 			continue
 		}
-		b.WriteString("(assert " + f.Term + ") ; " + f.Origin + "\n")
+		factLines = append(factLines, "(assert "+f.Term+") ; "+f.Origin+"\n")
+		for _, t := range vc.factTok[i] {
+			needed[t] = true
+		}
 	}
+	var goal string
 	if o.Expect == "sat" {
-		b.WriteString("(assert " + and(o.Cond, o.Goal) + ")\n")
+		goal = "(assert " + and(o.Cond, o.Goal) + ")\n"
 	} else {
-		b.WriteString("(assert " + and(o.Cond, not(o.Goal)) + ")\n")
+		goal = "(assert " + and(o.Cond, not(o.Goal)) + ")\n"
 	}
+	collectGenerated(goal, needed)
+	decls := vc.decls[:o.NDecl]
+	keep := make([]bool, len(decls))
+	for i := len(decls) - 1; i >= 0; i-- {
+		name := vc.declName[i]
+		if name == "" || needed[name] {
+			// declarations (and their defining assertions) are always kept; a
+			// definition only when something kept mentions it
+			keep[i] = true
+			for _, t := range vc.declTok[i] {
+				needed[t] = true
+			}
+		}
+	}
+	for i, d := range decls {
+		if keep[i] {
+			b.WriteString(d + "\n")
+		}
+	}
+	for _, l := range factLines {
+		b.WriteString(l)
+	}
+	b.WriteString(goal)
 	b.WriteString("(check-sat)\n")
 	return b.String()
+}
+
+// indexTokens caches, for every declaration and fact produced so far, the generated
+// symbols it mentions (and for a define-fun its own name), so that slicing a query
+// does not rescan the text.
+func (vc *VC) indexTokens() {
+	for i := len(vc.declTok); i < len(vc.decls); i++ {
+		d := vc.decls[i]
+		name := ""
+		if strings.HasPrefix(d, "(define-fun ") {
+			name = d[len("(define-fun "):]
+			if j := strings.IndexByte(name, ' '); j > 0 {
+				name = name[:j]
+			}
+		}
+		m := map[string]bool{}
+		collectGenerated(d, m)
+		toks := make([]string, 0, len(m))
+		for t := range m {
+			if t != name {
+				toks = append(toks, t)
+			}
+		}
+		vc.declName = append(vc.declName, name)
+		vc.declTok = append(vc.declTok, toks)
+	}
+	for i := len(vc.factTok); i < len(vc.facts); i++ {
+		m := map[string]bool{}
+		collectGenerated(vc.facts[i].Term, m)
+		toks := make([]string, 0, len(m))
+		for t := range m {
+			toks = append(toks, t)
+		}
+		vc.factTok = append(vc.factTok, toks)
+	}
+}
+
+// collectGenerated adds every generated symbol (they all contain '!') of an
+// SMT-LIB text to the set.
+func collectGenerated(s string, out map[string]bool) {
+	start, bang := -1, false
+	for i := 0; i <= len(s); i++ {
+		var c byte
+		if i < len(s) {
+			c = s[i]
+		}
+		sym := c >= 'a' && c <= 'z' || c >= 'A' && c <= 'Z' || c >= '0' && c <= '9' || c == '_' || c == '.' || c == '!'
+		if sym {
+			if start < 0 {
+				start = i
+			}
+			if c == '!' {
+				bang = true
+			}
+			continue
+		}
+		if start >= 0 && bang {
+			out[s[start:i]] = true
+		}
+		start, bang = -1, false
+	}
 }
